@@ -42,15 +42,24 @@ struct Ctx {
     if (op != VAR) cse[key] = id;
     return id;
   }
-  void reset_path(const std::vector<bool>& pre){ prefix=pre; pc.clear(); seen.clear(); pos=0; }
+  void reset_path(const std::vector<bool>& pre);
   void reset_all(){ nodes.clear(); cse.clear(); vars.clear(); varorder.clear(); prefix.clear(); pc.clear(); seen.clear(); pos=0; poison_read=false; }
 };
 inline Ctx& ctx() { static Ctx c; return c; }
+// Values that leave the symbolic scalar through a built-in float (static_cast<float>(x) inside the library) and come back
+// through Real(float): the float's bit pattern is remembered together with the node of the ROUNDED symbolic value, so the
+// narrowing stays visible to the solver (x*(1+d), |d| <= 2^-24) instead of silently concretising x to its witness.
+inline std::map<float,int>& float_shadow(){ static std::map<float,int> m; return m; }
+inline std::vector<int>& rnd_log(){ static std::vector<int> v; return v; }   // rounding variables touched by the current path
+inline double lo_unit_roundoff(){ return 5.9604644775390625e-08; }          // 2^-24
+struct Real;
+inline Real rnd(const Real& x);
+inline void Ctx::reset_path(const std::vector<bool>& pre){ prefix=pre; pc.clear(); seen.clear(); pos=0; float_shadow().clear(); rnd_log().clear(); }
 struct Real {
   int id;
   Real() : id(ctx().mk(CONST,-1,-1,0.0,0.0)) {}
   Real(double v) : id(ctx().mk(CONST,-1,-1,v,v)) {}
-  Real(float v) : Real((double)v) {}
+  Real(float v) : id(-1) { auto it=float_shadow().find(v); if(it!=float_shadow().end()) id=it->second; else id=ctx().mk(CONST,-1,-1,(double)v,(double)v); }
   Real(int v) : Real((double)v) {}
   Real(long v) : Real((double)v) {}
   Real(long long v) : Real((double)v) {}
@@ -67,7 +76,7 @@ struct Real {
   double val() const { return ctx().nodes[id].val; }
   bool isConst() const { return ctx().nodes[id].op==CONST; }
   explicit operator double() const { return val(); }
-  explicit operator float() const { return (float)val(); }
+  explicit operator float() const;
   explicit operator int() const { return (int)val(); }
   explicit operator long() const { return (long)val(); }
   Real& operator+=(const Real& o);
@@ -142,6 +151,15 @@ inline Real log(const Real& a){ return un(LOG,a,std::log(a.val())); }
 inline Real atan2(const Real& a, const Real& b){ return bin(ATAN2,a,b,std::atan2(a.val(),b.val())); }
 // rounding to a narrower format (cast<>): an uninterpreted node with |round(x)-x| <= u|x|
 inline Real round_to(const Real& a, int mant_bits){ if (a.isConst()) return Real((double)(float)a.val()); return Real::from(ctx().mk(ROUND,a.id,mant_bits,0,(double)(float)a.val())); }
+// rounding to the single-precision format: exact value times (1 + d), one variable d per rounded node (standard model)
+inline Real rnd(const Real& x){
+  if (x.isConst()) return Real((double)(float)x.val());
+  double xr=(double)(float)x.val(); double dw = x.val()!=0.0 ? xr/x.val()-1.0 : 0.0;
+  Real d = Real::var("rnd_"+std::to_string(x.id), dw);
+  rnd_log().push_back(d.id);
+  return x*(Real(1.0)+d);
+}
+inline Real::operator float() const { float f=(float)val(); if(!isConst()){ Real r=rnd(*this); float_shadow()[f]=r.id; } return f; }
 // branching
 inline bool decide(int a, int cmp, int b, bool witness) {
   auto& C = ctx();
